@@ -64,6 +64,8 @@ type Expect struct {
 	Off  int    `json:"off"`
 	Line int    `json:"line"`
 	Why  string `json:"why"`
+	// Off < 0: any index on that line. MsgHas: the message must contain this (it is THIS defect).
+	MsgHas string `json:"msg_has,omitempty"`
 }
 
 // Result of executing one Case.
